@@ -22,6 +22,7 @@ Variables bnds bnd : Type.
 Variable b_at : bnds -> nat -> bnd.
 Variable t_partial : tensor -> nat -> nat -> bnd -> tensor.
 Variable t_pysum : list tensor -> tensor.
+Variable b_default : tensor -> nat -> bnd.
 
 Definition gen_tensor_rmul_TR (self : tensor) (other : R) : tensor :=
   (t_smul other self).
@@ -81,4 +82,8 @@ Definition gen_derivatives_curl_P (ts : tseq) (bounds : bnds) : list tensor :=
   [(gen_tensor_sub_TT (t_partial (s_nth ts 2%nat) 1%nat 1%nat (b_at bounds 1%nat)) (t_partial (s_nth ts 1%nat) 2%nat 1%nat (b_at bounds 2%nat))); (gen_tensor_sub_TT (t_partial (s_nth ts 0%nat) 2%nat 1%nat (b_at bounds 2%nat)) (t_partial (s_nth ts 2%nat) 0%nat 1%nat (b_at bounds 0%nat))); (gen_tensor_sub_TT (t_partial (s_nth ts 1%nat) 0%nat 1%nat (b_at bounds 0%nat)) (t_partial (s_nth ts 0%nat) 1%nat 1%nat (b_at bounds 1%nat)))].
 Definition gen_derivatives_laplacian_P (t : tensor) (bounds : bnds) : tensor :=
   (t_pysum (map (fun n : nat => (t_partial t n 2%nat (b_at bounds n))) (seq 0 (t_dim t)))).
+Definition gen_derivatives_gradient_N (t : tensor) (dim : list nat) : list tensor :=
+  (map (fun d_b : nat * bnd => (t_partial t (fst d_b) 1%nat (snd d_b))) (combine dim (map (fun d : nat => (b_default t d)) dim))).
+Definition gen_derivatives_gradient_B (t : tensor) (dim : list nat) (bounds : list bnd) : list tensor :=
+  (map (fun d_b : nat * bnd => (t_partial t (fst d_b) 1%nat (snd d_b))) (combine dim bounds)).
 End Gen.
